@@ -36,6 +36,8 @@ type translator struct {
 	legacy      map[string]bool       // targets of the original ssa2lean (namespace Low.Gen.Ssa, loop-free only)
 	gen2        map[string]bool       // targets of ssa2lean2 (namespace Low.Gen.Ssa2)
 	gen3        map[string]bool       // targets of ssa2lean3 (namespace Low.Gen.Ssa3)
+	gen4        map[string]bool       // targets of ssa2lean4 (namespace Low.Gen.Ssa4)
+	initConsts  map[*ssa.Global]string
 	cloMemo     map[*ssa.Function]*closureInfo
 	cloDone     map[*ssa.Function]bool
 	freshMemo   map[*ssa.Function]int // returnsFresh: 1 = being computed, 2 = yes, 3 = no
@@ -46,7 +48,7 @@ type translator struct {
 	allFuncs    []*ssa.Function
 }
 
-func newTranslator(prog *ssa.Program, pkgs map[string]*ssa.Package, targets []string, legacy []string, gen2 []string, gen3 []string) *translator {
+func newTranslator(prog *ssa.Program, pkgs map[string]*ssa.Package, targets []string, legacy []string, gen2 []string, gen3 []string, gen4 []string) *translator {
 	tr := &translator{
 		prog: prog, pkgs: pkgs,
 		byName: map[string]*ssa.Function{}, byFunc: map[*ssa.Function]string{},
@@ -54,10 +56,14 @@ func newTranslator(prog *ssa.Program, pkgs map[string]*ssa.Package, targets []st
 		fuelMemo: map[*ssa.Function]int{}, legacy: map[string]bool{}, tablesOK: map[*ssa.Global]string{},
 		globalsOK: map[*ssa.Global]string{}, gen2: map[string]bool{}, freshMemo: map[*ssa.Function]int{},
 		globalInts: map[*ssa.Function][]*ssa.Global{}, writtenMemo: map[*ssa.Function]map[int]bool{},
+		gen4: map[string]bool{}, initConsts: map[*ssa.Global]string{},
 		gen3: map[string]bool{}, cloMemo: map[*ssa.Function]*closureInfo{}, cloDone: map[*ssa.Function]bool{},
 	}
 	for _, t := range gen3 {
 		tr.gen3[t] = true
+	}
+	for _, t := range gen4 {
+		tr.gen4[t] = true
 	}
 	for _, t := range legacy {
 		tr.legacy[t] = true
@@ -86,8 +92,10 @@ func (tr *translator) genOf(target string) int {
 		return 2
 	case tr.gen3[target]:
 		return 3
+	case tr.gen4[target]:
+		return 4
 	}
-	return 4
+	return 6
 }
 
 func (tr *translator) resolve(target string) (*ssa.Function, string) {
@@ -669,7 +677,17 @@ func (c *fnCtx) leanRefOf(tname string) string {
 	if c.gen < 4 {
 		fail("call of %s, a target of ssa2lean4, from a target of an earlier tool", tname)
 	}
-	c.imports["Generated.Ssa4."+ln] = true
+	if c.tr.gen4[tname] {
+		c.imports["Generated.Ssa4."+ln] = true
+		if c.gen == 4 {
+			return ln
+		}
+		return "Low.Gen.Ssa4." + ln
+	}
+	if c.gen < 6 {
+		fail("call of %s, a target of ssa2lean6, from a target of an earlier tool", tname)
+	}
+	c.imports["Generated.Ssa6."+ln] = true
 	return ln
 }
 
